@@ -147,7 +147,7 @@ CLAIMED = sorted(ENGINE_OF)
 LEVEL = {"C17": "fault_enumeration"}
 LEVEL_TEXT = {
     "C20": "Exhaustive over a declared finite matrix (operation x parameter-list category x value-type category x allocator kind): every cell is compiled with two compilers and the compiled cell is executed under ASan/UBSan and the ledger with a postcondition. Ill-formedness is a build-time observation of the generated unit (the honest limit of this family for C20, see DESIGN.md).",
-    "C15": "Exhaustive enumeration of a declared finite grid (25 type pairs x 16 source forms x 2 parameter kinds x 6 lengths x 2 language standards), each cell executed under ASan/UBSan with the stored values compared against T(source item) and the source inspected afterwards.",
+    "C15": "Exhaustive enumeration of a declared finite grid (27 type pairs x 16 source forms x 2 parameter kinds x 6 lengths x 2 language standards), each cell executed under ASan/UBSan with the stored values compared against T(source item) and the source inspected afterwards.",
     "C17": "Fault enumeration: for each sampled pre-state EVERY allocation the operation performs is failed in turn (exhaustive over the fault index, sampled over pre-states and parameter lists); ledger, object registry and public API decide the outcome.",
     "C19": "Exploration of schedules by stress: 8 to 16 unsynchronised threads, millions of overlapping const operations under ThreadSanitizer with two compilers. No race observed is not a proof of race freedom; sensitivity is shown by a mutant that caches size() in a mutable member.",
 }
@@ -554,7 +554,7 @@ def run_elem_check(tier):
 
 # ---------------------------------------------------------------------------------------------- C15 emplace
 EMPLACE_GROUPS = 6
-EMPLACE_RULE = "finite grid, enumerated completely: 25 type pairs (incl. sources whose conversion depends on the value category and a type with trivial copy but user-provided move) (same type, integral / floating conversions, bool, enums, classes with converting constructor or conversion operator, std::string, pointers, instrumented and move-only types) x 16 source forms (std::array / std::vector / C array / std::list as lvalue and rvalue, generated input range, single-pass range whose begin() starts the pass, pointer, contiguous, node, reverse and deque iterators, move_iterator, counting input iterator) x FixedSize / VaryingSize x lengths 0..5, as C++17 and C++20; stored values compared with static_cast<T>(source item) computed beforehand, lvalue sources compared before / after, moves and copies counted by the instrumented type, consumption counted by the input iterator; non-trivial: length > 0; distinct: the cell"
+EMPLACE_RULE = "finite grid, enumerated completely: 27 type pairs (incl. a pointer to a base at non-zero offset from a pointer to derived, sources whose conversion depends on the value category and a type with trivial copy but user-provided move) (same type, integral / floating conversions, bool, enums, classes with converting constructor or conversion operator, std::string, pointers, instrumented and move-only types) x 16 source forms (std::array / std::vector / C array / std::list as lvalue and rvalue, generated input range, single-pass range whose begin() starts the pass, pointer, contiguous, node, reverse and deque iterators, move_iterator, counting input iterator) x FixedSize / VaryingSize x lengths 0..5, as C++17 and C++20; stored values compared with static_cast<T>(source item) computed beforehand, lvalue sources compared before / after, moves and copies counted by the instrumented type, consumption counted by the input iterator; non-trivial: length > 0; distinct: the cell"
 
 
 def emplace_units(tier, seed):
